@@ -18,7 +18,7 @@ import copy
 
 import sympy as sp
 
-from ..core import AnchorMissing, Check, Undecided, calls_in, dotted, kwarg, own_nodes, src, walk_guarded
+from ..core import AnchorMissing, Check, FuncInfo, Undecided, calls_in, dotted, kwarg, own_nodes, src, walk_guarded
 from ..flow import CFG
 from ..hydro import HY, TM, SideTyper, attr_side, drop_ite, fn, hydro_extractor, junction_terms, n, th, same_term
 from ..nf import Ctx, eqx, has, match, nf, parse_pattern, same
@@ -73,14 +73,479 @@ def _never_returns_when(g: CFG, pos: str, neg: str | None, want: bool, ctx=None)
 
 
 def _local_func(S, fi, name: str):
-    """the nested function `name` visible from fi (its own nested functions, then those of the enclosing functions)"""
+    """the nested function `name` visible from fi (its own nested functions, then those of the enclosing functions).  The definition is looked
+    up in the function's own tree first, so that it is also found in a written-out copy (`written_out`) whose nested functions are not indexed"""
     f = fi
     while f is not None:
         q = f"{f.module}:{f.qual}.{name}"
+        hits = [x for x in own_nodes(f.node) if isinstance(x, ast.FunctionDef) and x.name == name]
+        if len(hits) == 1 and not (S.has_func(q) and S.func(q).node is hits[0]):
+            return FuncInfo(f.module, f"{f.qual}.{name}", hits[0], f.cls, f)
         if S.has_func(q):
             return S.func(q)
         f = f.parent
     return None
+
+
+def _nested_funcs(S, fi, depth: int = 2) -> list:
+    """the functions defined inside fi, down to `depth` levels (read off fi's own tree: also right for a written-out copy)"""
+    out = []
+    if depth <= 0:
+        return out
+    for x in own_nodes(fi.node):
+        if isinstance(x, ast.FunctionDef):
+            q = f"{fi.module}:{fi.qual}.{x.name}"
+            h = S.func(q) if S.has_func(q) and S.func(q).node is x else FuncInfo(fi.module, f"{fi.qual}.{x.name}", x, fi.cls, fi)
+            out.append(h)
+            out += _nested_funcs(S, h, depth - 1)
+    return out
+
+
+# ------------------------------------------------------------------------------------------------ written-out form of a function
+#
+# Several rules look at two sibling blocks of one function (the two range-limited root searches of fastestDeflag, the shock-wave and the
+# rarefaction-wave contribution of efficiencyFactor).  A maintainer may merge such blocks into one `for` loop over a literal tuple of cases
+# (each result stored in its own slot of a small list), re-use one local name for both blocks, or -- after a parametrised closure was written
+# out per call site by inline.py -- leave tests between literals (`if 1 == 1:`) behind.  `written_out` undoes these spellings on a copy of the
+# function, so that the rules see the sibling blocks again:
+#   1. guard clauses `if c: continue` at the top of a `for` body become if/else, `range(<n>)` becomes the tuple (0, .., n-1)
+#   2. `for` loops over literal cases are written out case by case                                 (c01.normalised)
+#   3. tests between literals are decided, the branch not taken is dropped                         (`if 1 == 1:` / `x if True else y`);
+#      a display of plain names indexed by a literal is the element                                (`(a, b)[1]`)
+#   4. a local list / tuple display whose slots are only addressed by literal index (`L[0] = ..`, `a, b = L`, `min(L)`, `return L`) becomes
+#      one local per slot
+#   5. a local that is re-used for unrelated values (no read sees definitions of both uses) is split into one local per use
+# Every step preserves the behaviour of the function, so a rule that inspects the written-out copy demands exactly what it demanded before.
+
+_WRITTEN: dict = {}
+
+
+def written_out(S, fi) -> FuncInfo:
+    key = (id(S), fi.name, id(fi.node))
+    hit = _WRITTEN.get(key)
+    if hit is not None:
+        return hit[1]
+    node = copy.deepcopy(fi.node)
+    changed = False
+    if any(isinstance(x, ast.For) for x in own_nodes(node)):
+        _continue_guards(node)
+        ast.fix_missing_locations(node)
+        cur = FuncInfo(fi.module, fi.qual, node, fi.cls, fi.parent)
+        from . import c01
+        nz = c01.normalised(S, cur)
+        if nz is not cur:
+            node, changed = copy.deepcopy(nz.node), True
+        else:
+            node = copy.deepcopy(fi.node)        # nothing written out: keep the loop as it was
+    changed = _fold_literal_tests(node) or changed
+    changed = _scalarise_slots(node) or changed
+    changed = _split_live_ranges(node) or changed
+    if changed:
+        ast.fix_missing_locations(node)
+        out = FuncInfo(fi.module, fi.qual, node, fi.cls, fi.parent)
+    else:
+        out = fi
+    _WRITTEN[key] = (fi.node, out)
+    return out
+
+
+def _jumps(stmts) -> bool:
+    return any(isinstance(x, (ast.Break, ast.Continue)) for st in stmts for x in ast.walk(st))
+
+
+def _negated(test):
+    if isinstance(test, ast.UnaryOp) and isinstance(test.op, ast.Not):
+        return test.operand
+    return ast.copy_location(ast.UnaryOp(op=ast.Not(), operand=test), test)
+
+
+def _continue_guards(fn) -> bool:
+    """`for ..: if c: [stmts;] continue; rest`  ->  `for ..: if c: stmts else: rest`   (guards directly in the loop body, no other jump involved)"""
+    changed = [False]
+
+    def loop_body(body):
+        body = list(body)
+        while body and isinstance(body[-1], ast.Continue):
+            body.pop()
+            changed[0] = True
+        out = []
+        for i, st in enumerate(body):
+            if isinstance(st, ast.If) and not st.orelse and st.body and isinstance(st.body[-1], ast.Continue) and not _jumps(st.body[:-1]):
+                rest = loop_body(body[i + 1:]) if body[i + 1:] else []
+                head = st.body[:-1]
+                if head:
+                    new = ast.If(test=st.test, body=head, orelse=rest)
+                else:
+                    new = ast.If(test=_negated(st.test), body=rest or [ast.copy_location(ast.Pass(), st)], orelse=[])
+                out.append(ast.copy_location(new, st))
+                changed[0] = True
+                return out
+            out.append(st)
+        return out or [ast.Pass()]
+
+    def visit(stmts):
+        for st in stmts:
+            if isinstance(st, (ast.FunctionDef, ast.AsyncFunctionDef, ast.ClassDef)):
+                continue
+            if isinstance(st, ast.For):
+                st.body = loop_body(st.body)
+                it = st.iter
+                if isinstance(it, ast.Call) and isinstance(it.func, ast.Name) and it.func.id == "range" and not it.keywords and 1 <= len(it.args) <= 2 \
+                        and all(isinstance(a_, ast.Constant) and isinstance(a_.value, int) and not isinstance(a_.value, bool) for a_ in it.args):
+                    lo, hi = (0, it.args[0].value) if len(it.args) == 1 else (it.args[0].value, it.args[1].value)
+                    if 0 < hi - lo <= 8:          # for k in range(2)  ==  for k in (0, 1)
+                        st.iter = ast.copy_location(ast.Tuple(elts=[ast.Constant(value=v) for v in range(lo, hi)], ctx=ast.Load()), it)
+                        changed[0] = True
+            for fld in ("body", "orelse", "finalbody"):
+                sub = getattr(st, fld, None)
+                if isinstance(sub, list) and sub and isinstance(sub[0], ast.stmt):
+                    visit(sub)
+            for h in getattr(st, "handlers", []) or []:
+                visit(h.body)
+
+    visit(fn.body)
+    return changed[0]
+
+
+def _literal_truth(e):
+    """truth value of a test that is made of literals only (True / False / None / numbers / strings and comparisons between them), else None"""
+    if isinstance(e, ast.Constant) and (e.value is None or isinstance(e.value, (bool, int, float, str))):
+        return bool(e.value)
+    if isinstance(e, ast.UnaryOp) and isinstance(e.op, ast.Not):
+        v = _literal_truth(e.operand)
+        return None if v is None else not v
+    if isinstance(e, ast.BoolOp):
+        vals = [_literal_truth(v) for v in e.values]
+        if None in vals:
+            return None
+        return all(vals) if isinstance(e.op, ast.And) else any(vals)
+    if isinstance(e, ast.Compare) and len(e.ops) == 1:
+        def lit(x):
+            if isinstance(x, ast.Constant) and (x.value is None or isinstance(x.value, (bool, int, float, str))):
+                return True, x.value
+            if isinstance(x, ast.UnaryOp) and isinstance(x.op, ast.USub) and isinstance(x.operand, ast.Constant) and isinstance(x.operand.value, (int, float)) \
+                    and not isinstance(x.operand.value, bool):
+                return True, -x.operand.value
+            return False, None
+        (oka, a), (okb, b), op = lit(e.left), lit(e.comparators[0]), e.ops[0]
+        if not (oka and okb):
+            return None
+        try:
+            if isinstance(op, ast.Eq):
+                return bool(a == b)
+            if isinstance(op, ast.NotEq):
+                return bool(a != b)
+            if isinstance(op, (ast.Is, ast.IsNot)):
+                if not all(x is None or isinstance(x, bool) for x in (a, b)):
+                    return None
+                return (a is b) == isinstance(op, ast.Is)
+            if isinstance(op, ast.Lt):
+                return bool(a < b)
+            if isinstance(op, ast.LtE):
+                return bool(a <= b)
+            if isinstance(op, ast.Gt):
+                return bool(a > b)
+            if isinstance(op, ast.GtE):
+                return bool(a >= b)
+        except TypeError:
+            return None
+    return None
+
+
+def _pure_path(e) -> bool:
+    if isinstance(e, ast.UnaryOp) and isinstance(e.op, ast.USub):
+        e = e.operand
+    return isinstance(e, (ast.Constant, ast.Name)) or (isinstance(e, ast.Attribute) and _pure_path(e.value))
+
+
+def _fold_literal_tests(fn) -> bool:
+    changed = [False]
+
+    class T(ast.NodeTransformer):
+        def visit_If(self, x):
+            self.generic_visit(x)
+            v = _literal_truth(x.test)
+            if v is None:
+                return x
+            changed[0] = True
+            taken = x.body if v else x.orelse
+            return taken if taken else ast.copy_location(ast.Pass(), x)
+
+        def visit_IfExp(self, x):
+            self.generic_visit(x)
+            v = _literal_truth(x.test)
+            if v is None:
+                return x
+            changed[0] = True
+            return x.body if v else x.orelse
+
+        def visit_Subscript(self, x):
+            # (a, b)[1] -> b   when no element does anything but name a value (dropping the other elements evaluates nothing away)
+            self.generic_visit(x)
+            d, k = x.value, _cidx(x.slice)
+            if isinstance(x.ctx, ast.Load) and isinstance(d, (ast.Tuple, ast.List)) and k is not None and -len(d.elts) <= k < len(d.elts) \
+                    and all(_pure_path(e) for e in d.elts):
+                changed[0] = True
+                return d.elts[k]
+            return x
+
+    T().visit(fn)
+    return changed[0]
+
+
+def _scope_walk(fn):
+    """(own, nested): the nodes of fn's own scope (comprehensions included, bodies of nested functions / lambdas / classes not) and the names
+    that occur inside the nested functions / lambdas / classes"""
+    own, nested = [], set()
+    stack = list(ast.iter_child_nodes(fn))
+    while stack:
+        x = stack.pop()
+        if isinstance(x, (ast.FunctionDef, ast.AsyncFunctionDef, ast.ClassDef, ast.Lambda)):
+            own.append(x)
+            for y in ast.walk(x):
+                if isinstance(y, ast.Name):
+                    nested.add(y.id)
+                elif isinstance(y, ast.arg):
+                    nested.add(y.arg)
+                elif isinstance(y, (ast.Global, ast.Nonlocal)):
+                    nested |= set(y.names)
+                elif isinstance(y, (ast.FunctionDef, ast.AsyncFunctionDef, ast.ClassDef)) and y is not x:
+                    nested.add(y.name)
+            continue
+        own.append(x)
+        stack.extend(ast.iter_child_nodes(x))
+    return own, nested
+
+
+def _fresh(base: str, taken: set) -> str:
+    k = 0
+    nm = base
+    while nm in taken:
+        k += 1
+        nm = f"{base}_{k}"
+    taken.add(nm)
+    return nm
+
+
+def _all_names(fn) -> set:
+    out = set()
+    for x in ast.walk(fn):
+        if isinstance(x, ast.Name):
+            out.add(x.id)
+        elif isinstance(x, ast.arg):
+            out.add(x.arg)
+        elif isinstance(x, (ast.FunctionDef, ast.AsyncFunctionDef, ast.ClassDef)):
+            out.add(x.name)
+    return out
+
+
+def _scalarise_slots(fn) -> bool:
+    """`L = [e0, e1]` (assigned once, at the top level of the function) whose every other occurrence is `L[<literal index>]`, `a, b = L`,
+    `min(L)` / `max(L)` / `sum(L)` or `return L`:  one local per slot.  Nested functions may read slots of a table that is never written to."""
+    own, nested = _scope_walk(fn)
+    own_ids = {id(x) for x in own}
+    parent = {}
+    for x in ast.walk(fn):
+        for c in ast.iter_child_nodes(x):
+            parent[id(c)] = x
+    # names bound inside a nested function / lambda / class (parameter, assignment, definition, global / nonlocal declaration)
+    bound_nested = set()
+    for x in ast.walk(fn):
+        if id(x) in own_ids or x is fn:
+            continue
+        if isinstance(x, ast.Name) and isinstance(x.ctx, (ast.Store, ast.Del)):
+            bound_nested.add(x.id)
+        elif isinstance(x, ast.arg):
+            bound_nested.add(x.arg)
+        elif isinstance(x, (ast.Global, ast.Nonlocal)):
+            bound_nested |= set(x.names)
+        elif isinstance(x, (ast.FunctionDef, ast.AsyncFunctionDef, ast.ClassDef)):
+            bound_nested.add(x.name)
+        elif isinstance(x, ast.ExceptHandler) and x.name:
+            bound_nested.add(x.name)
+    cands = {}
+    for st in fn.body:
+        if isinstance(st, ast.Assign) and len(st.targets) == 1 and isinstance(st.targets[0], ast.Name) and isinstance(st.value, (ast.List, ast.Tuple)) \
+                and 1 <= len(st.value.elts) <= 8 and not any(isinstance(e, ast.Starred) for e in st.value.elts):
+            nm = st.targets[0].id
+            cands[nm] = None if nm in cands else st
+    params = {a.arg for a in fn.args.posonlyargs + fn.args.args + fn.args.kwonlyargs} | ({fn.args.vararg.arg} if fn.args.vararg else set()) \
+        | ({fn.args.kwarg.arg} if fn.args.kwarg else set())
+    plans = {}
+    for nm, d in cands.items():
+        if d is None or nm in bound_nested or nm in params:
+            continue
+        n_, ok, sites, inner, stored = len(d.value.elts), True, [], False, False
+        for x in ast.walk(fn):
+            if isinstance(x, (ast.Global, ast.Nonlocal)) and nm in x.names:
+                ok = False
+            if not (isinstance(x, ast.Name) and x.id == nm) or x is d.targets[0]:
+                continue
+            p = parent.get(id(x))
+            here = id(x) in own_ids
+            if isinstance(p, ast.Subscript) and p.value is x and isinstance(p.ctx, (ast.Load, ast.Store)) and _cidx(p.slice) is not None and -n_ <= _cidx(p.slice) < n_:
+                sites.append(("slot", p, _cidx(p.slice) % n_))
+                stored = stored or isinstance(p.ctx, ast.Store)
+                inner = inner or not here
+            elif not here:
+                ok = False
+                break
+            elif isinstance(p, ast.Assign) and p.value is x and len(p.targets) == 1 and isinstance(p.targets[0], (ast.Tuple, ast.List)) \
+                    and len(p.targets[0].elts) == n_ and not any(isinstance(e, ast.Starred) for e in p.targets[0].elts):
+                sites.append(("unpack", p, None))
+            elif isinstance(p, ast.Call) and isinstance(p.func, ast.Name) and p.func.id in ("min", "max", "sum") and len(p.args) == 1 and p.args[0] is x \
+                    and not p.keywords and (p.func.id != "sum" or n_ >= 1):
+                sites.append((p.func.id, p, None))
+            elif isinstance(p, ast.Return) and p.value is x:
+                sites.append(("return", p, None))          # the display itself is handed out: a display of the slots is the same value
+            else:
+                ok = False
+                break
+        # a nested function may read the slots of a table that is never written to (it would otherwise see later writes through the shared list)
+        if inner and stored:
+            ok = False
+        if ok and sites:
+            plans[nm] = (d, sites)
+    if not plans:
+        return False
+    taken = _all_names(fn)
+    repl = {}            # id(node) -> replacement node / list of statements
+    for nm, (d, sites) in plans.items():
+        slots = [_fresh(f"{nm}__{i}", taken) for i in range(len(d.value.elts))]
+        repl[id(d)] = [ast.copy_location(ast.Assign(targets=[ast.Name(id=s_, ctx=ast.Store())], value=e), d) for s_, e in zip(slots, d.value.elts)]
+        for kind, p, k in sites:
+            load = lambda: [ast.Name(id=s_, ctx=ast.Load()) for s_ in slots]
+            if kind == "slot":
+                repl[id(p)] = ast.copy_location(ast.Name(id=slots[k], ctx=type(p.ctx)()), p)
+            elif kind == "unpack":
+                repl[id(p.value)] = ast.copy_location(ast.Tuple(elts=load(), ctx=ast.Load()), p.value)
+            elif kind == "return":
+                repl[id(p.value)] = ast.copy_location(type(d.value)(elts=load(), ctx=ast.Load()), p.value)
+            elif kind in ("min", "max") and len(slots) > 1:
+                p.args = load()
+            elif kind in ("min", "max"):
+                repl[id(p)] = ast.copy_location(load()[0], p)
+            else:
+                e = None
+                for s_ in load():
+                    e = s_ if e is None else ast.BinOp(left=e, op=ast.Add(), right=s_)
+                repl[id(p)] = ast.copy_location(e, p)
+
+    class T(ast.NodeTransformer):
+        def visit(self, x):
+            r = repl.get(id(x))
+            if r is not None:
+                if isinstance(r, list):
+                    return [self.generic_visit(s_) for s_ in r]
+                return r
+            return self.generic_visit(x)
+
+    T().visit(fn)
+    return True
+
+
+def _split_live_ranges(fn) -> bool:
+    """a local (or nested function name) bound by several plain assignments such that no read sees bindings of two groups: one name per group
+    (written-out loop bodies and copy-pasted blocks re-use their locals; the rules address a value by the local that holds it)"""
+    own, nested = _scope_walk(fn)
+    # (the flow graph does not model the exceptional entry of a `finally` block nor a context manager that swallows an exception: a read after
+    # such a construct may see more definitions than the graph says -- leave those functions alone)
+    if any(isinstance(x, (ast.With, ast.AsyncWith, ast.Match)) or (isinstance(x, ast.Try) and x.finalbody) or isinstance(x, getattr(ast, "TryStar", ())) for x in own):
+        return False
+    try:
+        g = CFG(fn)
+    except Exception:
+        return False
+    bad = {a.arg for a in ast.walk(fn.args) if isinstance(a, ast.arg)} | set(nested)
+    stores, loads = {}, {}
+    for x in own:
+        if isinstance(x, ast.Name):
+            (loads if isinstance(x.ctx, ast.Load) else stores).setdefault(x.id, []).append(x)
+            if isinstance(x.ctx, ast.Del):
+                bad.add(x.id)
+        elif isinstance(x, ast.ExceptHandler) and x.name:
+            bad.add(x.name)
+        elif isinstance(x, (ast.Import, ast.ImportFrom)):
+            bad |= {(al.asname or al.name).split(".")[0] for al in x.names}
+        elif isinstance(x, (ast.Global, ast.Nonlocal)):
+            bad |= set(x.names)
+        elif isinstance(x, (ast.comprehension, ast.For, ast.AsyncFor)):
+            bad |= {y.id for y in ast.walk(x.target) if isinstance(y, ast.Name)}
+        elif isinstance(x, (ast.With, ast.AsyncWith)):
+            bad |= {y.id for it in x.items if it.optional_vars is not None for y in ast.walk(it.optional_vars) if isinstance(y, ast.Name)}
+        elif isinstance(x, (ast.NamedExpr, ast.AugAssign)):
+            bad |= {y.id for y in ast.walk(x.target) if isinstance(y, ast.Name) and isinstance(y.ctx, ast.Store)}
+        elif isinstance(x, ast.ClassDef):
+            bad.add(x.name)
+        elif isinstance(x, ast.MatchAs) and x.name:
+            bad.add(x.name)
+    defs: dict = {}          # name -> {id(cfg node): (cfg node, [store Name nodes])}
+    uses: dict = {}          # name -> {id(cfg node): (cfg node, [load Name nodes])}
+    for n_ in g.nodes:
+        k = g.kind.get(n_)
+        if k == "handler":
+            continue
+        if k == "def":
+            if isinstance(n_, ast.ClassDef):
+                continue
+            defs.setdefault(n_.name, {})[id(n_)] = (n_, [])
+            continue
+        if k == "stmt" and isinstance(n_, (ast.Assign, ast.AnnAssign)) and n_.value is not None:
+            for t in (n_.targets if isinstance(n_, ast.Assign) else [n_.target]):
+                for y in ast.walk(t):
+                    if isinstance(y, ast.Name) and isinstance(y.ctx, ast.Store):
+                        defs.setdefault(y.id, {}).setdefault(id(n_), (n_, []))[1].append(y)
+        roots = [it.context_expr for it in n_.items] if k == "with" else [n_]
+        for r in roots:
+            for y in ast.walk(r):
+                if isinstance(y, ast.Name) and isinstance(y.ctx, ast.Load):
+                    uses.setdefault(y.id, {}).setdefault(id(n_), (n_, []))[1].append(y)
+    order = {id(n_): i for i, n_ in enumerate(g.nodes)}
+    taken = _all_names(fn)
+    plans = []
+    for nm, dn in defs.items():
+        if nm in bad or len(dn) < 2:
+            continue
+        if {id(y) for y in stores.get(nm, [])} != {id(y) for _, ys in dn.values() for y in ys}:
+            continue          # bound in some other way as well
+        un = uses.get(nm, {})
+        if {id(y) for y in loads.get(nm, [])} != {id(y) for _, ys in un.values() for y in ys}:
+            continue          # read at a place the flow graph does not model
+        root = {k: k for k in list(dn) + ["ENTRY"]}
+
+        def find(k):
+            while root[k] != k:
+                k = root[k]
+            return k
+        ok, reach = True, {}
+        for uid, (u, _) in un.items():
+            rd = [("ENTRY" if d is CFG.ENTRY else id(d)) for d in g.reaching_defs(u, nm)]
+            if not rd or any(d not in root for d in rd):
+                ok = False
+                break
+            reach[uid] = rd[0]
+            for d in rd[1:]:
+                root[find(d)] = find(rd[0])
+        if not ok:
+            continue
+        groups: dict = {}
+        for k in dn:
+            groups.setdefault(find(k), []).append(k)
+        if len(groups) < 2:
+            continue
+        ranked = sorted(groups.items(), key=lambda kv: (find("ENTRY") != kv[0], min(order[k] for k in kv[1])))
+        names = {r: (nm if i == 0 else _fresh(f"{nm}__r{i + 1}", taken)) for i, (r, _) in enumerate(ranked)}
+        plans.append(([(n_, ys, names[find(k)]) for k, (n_, ys) in dn.items()], [(ys, names.get(find(reach[uid]), nm)) for uid, (u, ys) in un.items()]))
+    for dlist, ulist in plans:
+        for n_, ys, new in dlist:
+            if isinstance(n_, (ast.FunctionDef, ast.AsyncFunctionDef)) and not ys:
+                n_.name = new
+            for y in ys:
+                y.id = new
+        for ys, new in ulist:
+            for y in ys:
+                y.id = new
+    return bool(plans)
 
 
 def _callable(S, fi, f):
@@ -199,7 +664,7 @@ def _elem_minus_bound(S, scope, ret, bounds):
 def _side_conflicts(S, fq) -> list:
     """comparisons / differences between a temperature of a matching (element 2 = T+, 3 = T-) and a range bound of the other phase"""
     out = []
-    scopes = [fq] + [f for f in S.modules[fq.module].funcs.values() if f.parent is not None and (f.parent is fq or (f.parent.parent is fq))]
+    scopes = [fq] + _nested_funcs(S, fq, 2)
     for sc in scopes:
         for x in own_nodes(sc.node):
             pair = None
@@ -535,7 +1000,9 @@ def _root_vars(S, fq) -> list:
 
 def r06_6(chk: Check):
     S = chk.src
-    ff = S.func(f"{HY}.fastestDeflag")
+    # (read in its written-out form: a loop over the two phases is written out case by case, tests between literals left behind by a closure
+    # that was evaluated per call site are decided, result slots and re-used locals become one local per root search)
+    ff = written_out(S, S.func(f"{HY}.fastestDeflag"))
     chk.touch(ff.name)
     cf = Ctx(S, ff)
     BOUNDS = ("self.TMaxLowT", "self.TMaxHighT")
@@ -557,7 +1024,10 @@ def r06_6(chk: Check):
     V1, V2 = kinds.get((3, "self.TMaxLowT")), kinds.get((2, "self.TMaxHighT"))
     early = [r for r in rets if eqx(r.value, "self.vJ")]
     # (the two roots must live in two variables: one variable overwritten by the second search keeps only the last limit found)
-    final = [r for r in rets if r not in early and V1 and V2 and V1 != V2 and same_term(S, "hydrodynamics", "Hydrodynamics", r.value, f"min({V1}, {V2})")]
+    # (a plain copy `vmax1 = <the root's local>` between the search and the return is looked through)
+    roots_kept = {v.split(".")[0] for v in (V1, V2) if v}
+    final = [r for r in rets if r not in early and V1 and V2 and V1 != V2
+             and any(same_term(S, "hydrodynamics", "Hydrodynamics", v, f"min({V1}, {V2})") for v in (r.value, cf.resolve(r.value, keep=roots_kept, helpers=False)))]
     chk.ob("R06.6", ff.where(), "fastestDeflag returns the smaller of the two range-limited velocities", len(final) >= 1,
            "; ".join(n(r.value) for r in rets if r not in early), key="fastest|min")
     # vmax1 from the T- root against TMaxLowT, vmax2 from the T+ root against TMaxHighT  (sides: R02.4); here: flags
@@ -570,7 +1040,7 @@ def r06_6(chk: Check):
             k = _cidx(x.targets[0].slice)
             for ph in ("Low", "High"):
                 GEN = f"self.thermodynamics.freeEnergy{ph}.maxPossibleTemperature[1]"
-                if _only_when(g, x, GEN, None, False):
+                if _only_when(g, x, GEN, None, False) or _only_when(g, x, GEN, None, False, cf):
                     flags.add((k, ph))
     chk.ob("R06.6", ff.where(), "doesPhaseTraceLimitvmax[k] is raised only when phase k's upper range end is not a genuine end of the phase "
            "(index 0 = high-T, 1 = low-T)", flags == {(1, "Low"), (0, "High")} and nstores == 2, str(sorted(flags)), key="fastest|flags")
@@ -580,7 +1050,7 @@ def r06_6(chk: Check):
     chk.ob("R06.6", ff.where(), "fastestDeflag has no other exit: a velocity limited by one phase range is never returned before the other range was examined",
            not other, "; ".join(f"line {r.lineno}: return {n(r.value)}" for r in other), key="fastest|exits")
     for q in ("fastestDeflag", "slowestDeton"):
-        fq = S.func(f"{HY}.{q}")
+        fq = written_out(S, S.func(f"{HY}.{q}"))
         conf = SideTyper(fq.node).conflicts() + _side_conflicts(S, fq)
         chk.ob("R06.6", fq.where(), f"{q}: T- is compared with the low-T range and T+ with the high-T range", not conf,
                "; ".join(sorted({f"line {c.lineno}: {m}" for c, m in conf}))[:300], key=f"sides|{q}")
